@@ -10,6 +10,10 @@ Extracted constructs
                  (the list literal that contains "lists" and "src")
   listPages    : `out_page` of every ListPage subclass
   topPages     : `template_path` of IndexPage / SearchPage
+  isInterfaceProcedure : the boolean expression returned by the property
+                 `FortranProcedure.is_interface_procedure` (which decides whether a procedure
+                 borrows `ident`/`get_dir` from its parent interface), as a Lean function of the
+                 two facts it may consult: "the parent is a FortranInterface", "parent.generic"
 Every extractor raises when its construct is not found (= tie broken).
 """
 from __future__ import annotations
@@ -111,6 +115,46 @@ def extract_get_name(repo: Path):
     return table, sep, unnamed
 
 
+def _bool_expr(n) -> str:
+    """Python boolean expression over `isinstance(self.parent, FortranInterface)` and
+    `self.parent.generic` -> Lean Bool term over `pI` and `pG`."""
+    if isinstance(n, ast.BoolOp) and isinstance(n.op, (ast.And, ast.Or)):
+        op = " && " if isinstance(n.op, ast.And) else " || "
+        return "(" + op.join(_bool_expr(v) for v in n.values) + ")"
+    if isinstance(n, ast.UnaryOp) and isinstance(n.op, ast.Not):
+        return "(!" + _bool_expr(n.operand) + ")"
+    if isinstance(n, ast.Constant) and isinstance(n.value, bool):
+        return "true" if n.value else "false"
+    if (isinstance(n, ast.Call) and getattr(n.func, "id", None) == "isinstance" and len(n.args) == 2
+            and ast.unparse(n.args[0]) == "self.parent" and ast.unparse(n.args[1]) == "FortranInterface"):
+        return "pI"
+    if ast.unparse(n) == "self.parent.generic":
+        return "pG"
+    raise NotFound(f"is_interface_procedure: unmodelled sub-expression `{ast.unparse(n)}`")
+
+
+def extract_borrow(repo: Path) -> str:
+    """The expression returned by `FortranProcedure.is_interface_procedure`, and a check that `ident`
+    and `get_dir` of FortranProcedure consult exactly this property before delegating to the parent."""
+    src = (repo / "ford" / "sourceform.py").read_text()
+    cls = _find_class(ast.parse(src), "FortranProcedure")
+    fn = _find_func(cls, "is_interface_procedure")
+    body = [b for b in fn.body if not (isinstance(b, ast.Expr) and isinstance(b.value, ast.Constant))]
+    if len(body) != 1 or not isinstance(body[0], ast.Return) or body[0].value is None:
+        raise NotFound("is_interface_procedure is not a single `return <expr>`")
+    expr = _bool_expr(body[0].value)
+    for name, deleg in (("ident", "namelist.get_name(self.parent)"), ("get_dir", "'interface'")):
+        f = _find_func(cls, name)
+        b = [x for x in f.body if not (isinstance(x, ast.Expr) and isinstance(x.value, ast.Constant))]
+        ok = (len(b) == 2 and isinstance(b[0], ast.If) and ast.unparse(b[0].test) == "self.is_interface_procedure"
+              and len(b[0].body) == 1 and isinstance(b[0].body[0], ast.Return)
+              and ast.unparse(b[0].body[0].value) == deleg and not b[0].orelse
+              and isinstance(b[1], ast.Return) and ast.unparse(b[1].value) == f"super().{name}" + ("()" if name == "get_dir" else ""))
+        if not ok:
+            raise NotFound(f"FortranProcedure.{name} is not `if self.is_interface_procedure: return {deleg}` + super()")
+    return expr
+
+
 def extract_output(repo: Path):
     src = (repo / "ford" / "output.py").read_text()
     tree = ast.parse(src)
@@ -142,6 +186,7 @@ def extract_output(repo: Path):
 def render(repo: Path) -> str:
     table, sep, unnamed = extract_get_name(repo)
     dirs, list_pages, top_pages = extract_output(repo)
+    borrow = extract_borrow(repo)
     L = ["/- GENERATED by translate/c10.py from ford/sourceform.py and ford/output.py - do not edit -/",
          "import FordModel.Basic.Chars", "namespace Ford.Generated.C10", "open Ford", "",
          "/-- the dict literal iterated in `NameSelector.get_name` (symbol, replacement), in source order -/",
@@ -160,6 +205,10 @@ def render(repo: Path) -> str:
          "/-- top-level pages -/",
          "def topPages : List Str :=",
          "  [" + ", ".join(f"{_lean_str(d)}.toList" for d in top_pages) + "]", "",
+         "/-- `FortranProcedure.is_interface_procedure` as a function of `pI` = \"the parent is a",
+         "    FortranInterface\" and `pG` = `parent.generic` (only meaningful when `pI`) -/",
+         "def isInterfaceProcedure (pI pG : Bool) : Bool :=",
+         "  " + borrow, "",
          "end Ford.Generated.C10", ""]
     return "\n".join(L)
 
